@@ -38,14 +38,14 @@ func (d def) xml(i int) string {
 }
 
 func (d def) event() event.IEvent {
+	// (pooled: the same object for the same definition every time)
 	switch d.Kind {
 	case "signal":
-		return event.NewSignalEvent(d.Ref)
+		return drive.Signal(d.Ref)
 	case "message":
-		return event.NewMessageEvent(d.Ref, nil)
+		return drive.Message(d.Ref, "")
 	default:
-		op := "op_" + d.Ref
-		return event.NewMessageEvent(d.Ref, &op)
+		return drive.Message(d.Ref, "op_"+d.Ref)
 	}
 }
 
@@ -53,25 +53,24 @@ func (d def) event() event.IEvent {
 func nonMatching(defs []def, variant int) event.IEvent {
 	switch variant % 4 {
 	case 0:
-		return event.NewSignalEvent("zz_none")
+		return drive.Signal("zz_none")
 	case 1:
-		return event.NewMessageEvent("zz_none", nil)
+		return drive.Message("zz_none", "")
 	case 2:
 		// same ref as def 0 but the other kind
 		d := defs[0]
 		if d.Kind == "signal" {
-			return event.NewMessageEvent(d.Ref, nil)
+			return drive.Message(d.Ref, "")
 		}
-		return event.NewSignalEvent(d.Ref)
+		return drive.Signal(d.Ref)
 	default:
 		// operationRef mismatch against def 0 if it is a message
 		d := defs[0]
 		switch d.Kind {
 		case "message":
-			op := "op_x"
-			return event.NewMessageEvent(d.Ref, &op)
+			return drive.Message(d.Ref, "op_x")
 		case "messageop":
-			return event.NewMessageEvent(d.Ref, nil)
+			return drive.Message(d.Ref, "")
 		}
 		return event.MakeNoneEvent()
 	}
